@@ -315,6 +315,25 @@ def _w4_w5(ctx, R, name, cls, funcs, module):
                   "%s.%s is a mutable class attribute: it is shared by every composer in the process, so what one compose records (already written modules, ports...) changes the next compose" % (cls.name, nm))
         else:
             R.ok("W5", "%s.%s is immutable class-level data" % (cls.name, nm), cls.module.relpath)
+    # W5b: a mutable default argument that the method mutates survives between calls (and between composers)
+    for m in cls.methods.values():
+        a = m.node.args
+        names = [x.arg for x in a.posonlyargs + a.args]
+        defaults = [None] * (len(names) - len(a.defaults)) + list(a.defaults)
+        for nm, d in list(zip(names, defaults)) + [(k.arg, dv) for k, dv in zip(a.kwonlyargs, a.kw_defaults)]:
+            if d is None:
+                continue
+            mutable = isinstance(d, (ast.List, ast.Dict, ast.Set)) or (isinstance(d, ast.Call) and norm(d.func) in ("set", "list", "dict", "deque", "OrderedDict", "collections.deque"))
+            if not mutable:
+                continue
+            mutated = any(isinstance(c, ast.Call) and isinstance(c.func, ast.Attribute) and norm(c.func.value) == nm
+                          and c.func.attr in (CONTAINER_MUTATORS | {"popleft", "appendleft", "extendleft"}) for c in ast.walk(m.node)) or \
+                any(isinstance(t, ast.Subscript) and norm(t.value) == nm and isinstance(t.ctx, (ast.Store, ast.Del)) for t in ast.walk(m.node))
+            if mutated:
+                R.bad("W5", "%s|mutable default %s" % (m.key, nm), m.loc(),
+                      "%s takes `%s=%s` and mutates it: the default object lives as long as the process, so whatever one compose leaves in it (e.g. after an aborted run) shows up in the next" % (m.qualname, nm, norm(d)))
+            else:
+                R.ok("W5", "%s: default %s=%s is never mutated" % (m.qualname, nm, norm(d)), m.loc())
     init = cls.methods.get("__init__")
     state_attrs = set()
     for m in cls.methods.values():
